@@ -35,6 +35,10 @@ claimed = {
          "Layout.tla (Apalache proof + TLC) and FsStruct predicates on real mkfs images for a dense range of sizes; fill/empty runs", "5 C15"),
  "C19": ("model_checking", "NfsSpec binds name_max, wtmax and maxfilesize from the FSINFO/PATHCONF replies of the run itself and requires: names up to name_max creatable, longer refused; writes up to wtmax accepted in full or short but not refused, offsets+counts and SETATTR sizes up to maxfilesize accepted and readable back, beyond refused without effect. Directed probes step through limit-1/limit/limit+1/2^64-1 for every limit and a 'limits' generator profile mixes them into random sequences on disks where space is not the limit; TLC validates every reply, dump and restart.",
          "trace validation against NfsSpec limit rules bound from the server's own FSINFO/PATHCONF replies", "5 C19"),
+ "C03": ("model_checking", "Concurrent histories of 2-4 client goroutines on shared directories and files (same few names, cross-directory renames over existing targets, create/remove races, writes/truncates/reads of one file, listings during updates, large truncates that start the background shrinker), with seeded yields and sleeps injected at the lock-acquisition, commit and abort hook points, are recorded with one shared sequence counter. NfsLin.tla searches, with TLC, for a linearization: every call must have a point between its invoke and its return at which its full reply is what the reference NfsSpec allows, and the tree reached must equal the final dump. In addition a directed matrix of schedules holds a victim RPC exactly in its lock-free window between abort and ordered re-lock (LOOKUP/REMOVE/RMDIR of a smaller-numbered child, RENAME onto an existing target) while an intruder completes one or two conflicting RPCs (thorough: the full 12 x 380 matrix).",
+         "linearizability search in TLA+ (NfsLin over NfsSpec) on recorded concurrent histories and directed window schedules", "5 C03"),
+ "C14": ("other", "Reduced scope (DESIGN.md section 8): the mechanism 'a cached inode is read or written only by a goroutine whose transaction holds that inode's lock'. Lock events (fstxn hook) and entries of every inode method (inode hook) of concurrent runs are recorded in one sequence with goroutine ids; LockTrace.tla (TLC) requires every access to be by a goroutine holding the lock and every release to be by the holder. Races on memory that is not a cached inode (statistics, shrinker counters, go-journal internals) are outside this check.",
+         "lock-discipline invariant in TLA+ (LockTrace) over recorded lock/access traces", "5 C14, 8"),
 }
 checks = []
 for pid, (cat, text, tech, ref) in claimed.items():
